@@ -103,6 +103,7 @@ resource "aws_instance" "web" {
   ami           = data.aws_ami.ubuntu.id
   instance_type = var.enabled ? "t2.micro" : "t3.large"
   monitoring    = !var.enabled
+  secret        = "s-${self.ami}"
   tags = {
     Name = format("%s-%d", local.prefix, count.index)
     Env  = local.meta.owner
@@ -123,6 +124,9 @@ resource "aws_instance" "web" {
   network_interface {
     device_index = 0
     network_id   = self.id
+  }
+  volume "ssd" "data" {
+    size = 10
   }
   timeouts {
     create = "10m"
